@@ -15,6 +15,7 @@ import (
 	"unsafe"
 
 	"github.com/criyle/go-sandbox/pkg/forkexec"
+	"github.com/criyle/go-sandbox/pkg/mount"
 	"github.com/criyle/go-sandbox/pkg/unixsocket"
 	"github.com/criyle/go-sandbox/zzverif/kern"
 	"github.com/criyle/go-sandbox/zzverif/sym"
@@ -59,17 +60,18 @@ type world struct {
 	files     map[*os.File]*mfile
 	breakLeft int
 	// ghost protocol state
-	lastReplySeq int
-	pathKind     map[string]int
-	openedPaths  []string
-	doubleClose  int
-	badClose     int
-	cmdSeq       int // number of top-level commands sent by the host
-	handling     int // sequence number of the command the container is handling
-	serveErr     error
-	serveDone    bool
-	initExited   bool
-	killAllSent  int
+	lastReplySeq     int
+	pathKind         map[string]int
+	openedPaths      []string
+	doubleClose      int
+	lastRemoveFailed bool
+	badClose         int
+	cmdSeq           int // number of top-level commands sent by the host
+	handling         int // sequence number of the command the container is handling
+	serveErr         error
+	serveDone        bool
+	initExited       bool
+	killAllSent      int
 	// abstract program
 	prog          *program
 	mayRunForever bool
@@ -377,7 +379,7 @@ func newWorld() *world {
 		waitAllDone:   make(chan struct{}, 1),
 	}
 	cs.containerConfig.WorkDir = "/w"
-	cs.containerConfig.Mounts = nil
+	cs.containerConfig.Mounts = []mount.Mount{{Source: "tmpfs", Target: "w", FsType: "tmpfs"}}
 	w.init = cs
 	prevPid := sym.Pid()
 	sym.SetPid(pidInit) // threads inherit the model process of their creator
@@ -517,6 +519,9 @@ func (w *world) installFileStubs() {
 			w.doubleClose++
 			return os.ErrClosed
 		}
+		if m.fd < 0 {
+			return nil // a directory handle of the model
+		}
 		if m.proc.Fds[m.fd] == nil {
 			w.badClose++
 			return syscall.EBADF
@@ -526,6 +531,17 @@ func (w *world) installFileStubs() {
 		_ = ent
 		return nil
 	})
+	sym.Intercept("os.Open", func(name string) (*os.File, error) {
+		if sym.Bool("opendir_fails") {
+			return nil, &fs.PathError{Op: "open", Path: name, Err: syscall.EACCES}
+		}
+		f := new(os.File)
+		w.files[f] = &mfile{fd: -1, proc: w.curProc(), path: name}
+		return f, nil
+	})
+	sym.Intercept("(*os.File).Readdirnames", func(f *os.File, n int) ([]string, error) {
+		return []string{"leftover"}, nil
+	})
 	sym.Intercept("os.Symlink", func(oldname, newname string) error {
 		if sym.Bool("symlink_fails") {
 			return &os.LinkError{Op: "symlink", Old: oldname, New: newname, Err: syscall.EEXIST}
@@ -534,6 +550,7 @@ func (w *world) installFileStubs() {
 	})
 	sym.Intercept("os.Remove", func(name string) error {
 		if sym.Bool("remove_fails") {
+			w.lastRemoveFailed = true
 			return &fs.PathError{Op: "remove", Path: name, Err: syscall.ENOENT}
 		}
 		return nil
